@@ -84,7 +84,8 @@ def bundle(tier, seed):
     if binary is None:
         return {"harness_failed": blog[-4000:]}
     key = vlib.file_hash([binary] + [os.path.join(vlib.COQ, "Model", f) for f in ("Base.v", "Sess.v", "Hist.v", "Corr.v")]
-                         + [os.path.join(vlib.ROOT, "checks", "hist_common.py")])
+                         + [os.path.join(vlib.ROOT, "checks", "hist_common.py")]
+                         + sorted(__import__("glob").glob(os.path.join(vlib.ROOT, "corpus", "defects", "*.json"))))
     name = "bundle-%s-%s-%s-%d.json.gz" % (vlib.repo_hash(), key, tier, seed)
     d = os.path.join(vlib.BUILD, "bundles")
     os.makedirs(d, exist_ok=True)
